@@ -341,7 +341,12 @@ type Evidence struct {
 
 // Finish prints the verdict lines, writes replay files and the evidence file, and returns the exit
 // code. cov is filled by the check from the merged report.
+// ExtraAssumptions is appended to the assumptions of every evidence file (set by the entry point: e.g.
+// observers that the internals of the tree under test do not allow).
+var ExtraAssumptions []string
+
 func Finish(c *Ctx, level string, rep *Report, cov map[string]any, assumptions []string) int {
+	assumptions = append(append([]string{}, assumptions...), ExtraAssumptions...)
 	if rep.HarnessErr != "" {
 		fmt.Fprintf(os.Stderr, "HARNESS-ERROR property=%s %s\n", c.ID, rep.HarnessErr)
 		return 2
